@@ -40,6 +40,10 @@ type W7Msg struct {
 	// PreRI: replication info the message already carries when the writer gets it (chained replication):
 	// 0 none, 1 an empty info, 2 the mark and id of another replication
 	PreRI int `json:"pre_ri,omitempty"`
+	// SrcTs, when set: the message was re-stamped by the reader (the channel clock was ahead of the pack). The time the
+	// message carries (Ts: begin/end time, row times, position time) is the re-stamped one; the request header still holds
+	// the time the message had at the source - which is what the reader's re-stamping leaves there.
+	SrcTs uint64 `json:"src_ts,omitempty"`
 }
 
 type W7Pack struct {
@@ -116,6 +120,9 @@ func GenW7(rng *Rng) *W7Script {
 				if rng.Pct(15) {
 					msg.PreRI = rng.Range(1, 2)
 				}
+				if rng.Pct(25) {
+					msg.SrcTs = ts - uint64(rng.Range(1, 900))
+				}
 				if k == "ins" || k == "del" {
 					for i := 0; i < rng.Range(1, 3); i++ {
 						row++
@@ -150,6 +157,9 @@ func buildW7Msg(m W7Msg, ch string) msgstream.TsMsg {
 	base := msgstream.BaseMsg{BeginTimestamp: m.Ts, EndTimestamp: m.Ts, HashValues: []uint32{0}, MsgPosition: &msgpb.MsgPosition{ChannelName: ch, MsgID: SeqToMsgID(int(m.Tag)), Timestamp: m.Ts}}
 	mb := func(t commonpb.MsgType) *commonpb.MsgBase {
 		b := &commonpb.MsgBase{MsgType: t, MsgID: m.Tag, Timestamp: m.Ts, SourceID: 1}
+		if m.SrcTs != 0 {
+			b.Timestamp = m.SrcTs
+		}
 		switch m.PreRI {
 		case 1:
 			b.ReplicateInfo = &commonpb.ReplicateInfo{}
@@ -358,10 +368,27 @@ func (h *w7Handler) check(param *api.ReplicateMessageParam, n int) {
 			e := proto.Clone(exp)
 			clearReplicateInfo(g)
 			clearReplicateInfo(e)
+			if want.SrcTs != 0 {
+				s.Probe("restamped_message")
+				if t := msg.Type(); t == commonpb.MsgType_DropCollection || t == commonpb.MsgType_DropPartition {
+					// the time of a drop message travels in the request header only: it is judged by the decoded begin/end
+					// time above, not a second time here
+					s.Probe("restamped_drop_message")
+					clearHeaderTime(g)
+					clearHeaderTime(e)
+				}
+			}
 			if !proto.Equal(g, e) {
 				s.Violate("C07", "content", "channel %s call #%d msg %d (%s): decoded request differs from the pack's message: got %v want %v", param.ChannelName, n, i, msg.Type(), g, e)
 			}
 		}
+	}
+}
+
+func clearHeaderTime(m proto.Message) {
+	type hasBase interface{ GetBase() *commonpb.MsgBase }
+	if b, ok := m.(hasBase); ok && b.GetBase() != nil {
+		b.GetBase().Timestamp = 0
 	}
 }
 
